@@ -88,6 +88,12 @@ func run(c *fw.Ctx) {
 			c.Hang("store-operation", "an operation sequence did not finish within the watchdog", dump)
 		}
 	})
+	c.Cases("wrap", c.N(4, 48), func(i int, r *fw.Rand) {
+		ok, dump := c.Within(10*time.Minute, func() { runWrap(c, i, r) })
+		if !ok {
+			c.Hang("store-operation", "a sequence at the id-counter wrap did not finish within the watchdog", dump)
+		}
+	})
 }
 
 // Report transfers an executor's findings and counters to the framework.
@@ -142,19 +148,28 @@ func runSeq(c *fw.Ctx, idx int, r *fw.Rand) {
 	ops := GenOps(r, names, nops, C07Weights, fmt.Sprintf("c07-%d", idx), nil, false)
 	boxes := BoxTexts(names)
 
+	// A quarter of the sequences run both stores with the same mailbox cap (added after seeded
+	// change C07-8): the ordered-mailbox model then also says which message a delivery displaces,
+	// and the back-ends must still agree.
+	capN, cfgDesc := 0, "no cap/limit"
+	if idx%4 == 3 {
+		capN = []int{2, 3, 5, 8}[(idx/4)%4]
+		cfgDesc = fmt.Sprintf("cap %d", capN)
+		c.Count("sequences_with_cap", 1)
+	}
 	host := extension.NewHost()
-	ms, err := sut.NewStore("mem", config.Storage{Type: "memory", Params: map[string]string{}}, host)
+	ms, err := sut.NewStore("mem", config.Storage{Type: "memory", Params: map[string]string{}, MailboxMsgCap: capN}, host)
 	if err != nil {
 		panic(err)
 	}
 	dir := c.TempDir("c07fs")
 	defer os.RemoveAll(dir)
-	fs, err := sut.NewStore("file", config.Storage{Type: "file", Params: map[string]string{"path": dir}}, host)
+	fs, err := sut.NewStore("file", config.Storage{Type: "file", Params: map[string]string{"path": dir}, MailboxMsgCap: capN}, host)
 	if err != nil {
 		panic(err)
 	}
-	em := NewExec("C07", "mem", "no cap/limit", ms, 0, 0, boxes)
-	ef := NewExec("C07", "file", "no cap/limit", fs, 0, 0, boxes)
+	em := NewExec("C07", "mem", cfgDesc, ms, capN, 0, boxes)
+	ef := NewExec("C07", "file", cfgDesc, fs, capN, 0, boxes)
 	ef.ContentEvery = 8
 
 	for k, op := range ops {
